@@ -57,11 +57,45 @@ def run(ctx, driver):
     for c, ans in zip(cells, answers):
         check_cell(rec, c, ans)
     near_miss(ctx, rec)
+    refused_tunnels(ctx, rec)
     return rec.finish("C10/B2 establishment matrix",
                       "proxy mode {none,http,https,socks5,socks5h} x scheme {http,https,ws,wss} x (http1,http2) in {10,11,01} x ALPN result "
                       "{http/1.1,h2,none} x sni_hostname {unset,set} (+-proxy auth): connect target, TLS handshakes (server name, ALPN offer, context), "
                       "protocol spoken and TLS layers under the request bytes are compared with the model plan and the property; plus sequences of "
                       "requests to origins differing in exactly one component. distinct = distinct cells / sequences")
+
+
+def refused_tunnels(ctx, rec):
+    """A CONNECT that the proxy does not answer with 2xx has established nothing: the request must fail with ProxyError and neither a TLS
+    handshake for the origin nor a single byte of the request may go onto the connection to the proxy."""
+    statuses = [200, 201, 204, 299, 300, 301, 302, 307, 399, 400, 403, 407, 500, 502, 599]
+    for proxy in ("http", "https"):
+        for scheme in ("https", "wss", "ws"):
+            for status in statuses:
+                for h2 in (False, True):
+                    c = {"proxy": proxy, "scheme": scheme, "http1": True, "http2": h2, "alpn_result": "http/1.1", "sni": None, "auth": None,
+                         "connect_status": status, "connect_reason": b"Whatever"}
+                    w = estb2.World(c)
+                    tok = "tokREFUSED"
+                    out = w.request(scheme, "a.example", None, tok, headers=[(b"Authorization", b"secret-credential")])
+                    rec.evals += 1
+                    rec.distinct.add(("refused-tunnel", proxy, scheme, status, h2))
+                    rec.dist[f"connect-status:{status // 100}xx:{out['outcome']}"] += 1
+                    px = [p for p in w.peers if getattr(p, "role", "") == "proxy"]
+                    payload = {"cell": {k: (v.decode() if isinstance(v, bytes) else v) for k, v in c.items()}, "outcome": out["outcome"], "exc": out.get("exc"),
+                               "written_after_connect": repr(bytes(px[0].pre_tunnel)[-200:]) if px else None}
+                    accepted = 200 <= status <= 299
+                    if accepted:
+                        if out["outcome"] != "ok":
+                            rec.fail("tunnel-2xx-not-accepted", {"status": status}, payload)
+                        continue
+                    if out["outcome"] != "error:ProxyError":
+                        rec.fail("refused-tunnel-not-proxyerror", {"status_class": status // 100, "got": out["outcome"]}, payload)
+                    origin_tls = [r for r in out["log"] if r["op"] == "start_tls" and r.get("server_hostname") == "a.example"]
+                    if origin_tls:
+                        rec.fail("tls-for-origin-on-refused-tunnel", {"status_class": status // 100}, payload)
+                    if px and (tok.encode() in bytes(px[0].written) or b"secret-credential" in bytes(px[0].written)):
+                        rec.fail("request-written-to-proxy-without-tunnel", {"status_class": status // 100}, payload)
 
 
 def check_cell(rec, c, ans):
